@@ -74,7 +74,19 @@ CFG = {
     "2-ren-clash": (2, [["k", "rk"], ["k2", "rk2"]], ["rk", "rk2"], "id", True),
     "2-mixed": (2, ["k", ["k2", "rk2"]], ["k", "rk2"], "p", True),
     "2-mixed-leftkey": (2, ["k", ["k2", "rk2"]], ["k", "rk2"], "k2", False),
+    # a join key whose NAME contains the names of other entries ('p' and 'id' occur inside 'pkid')
+    "1-same-substr": (1, ["k"], ["k"], "p", True),
 }
+# configs whose items are built as above and then get their keys renamed (in the items and in `by`)
+KEY_RENAME = {"1-same-substr": {"k": "pkid"}}
+
+
+def renamed_keys(cfg, items, by):
+    m = KEY_RENAME.get(cfg)
+    if not m:
+        return items, by
+    return ([{m.get(k, k): v for k, v in x.items()} for x in items],
+            [m.get(b, b) if isinstance(b, str) else [m.get(x, x) for x in b] for b in by])
 AGG_BY = [["k"], ["k2"], ["k", "k2"], ["k2", "k"]]
 
 
@@ -296,15 +308,40 @@ def check_agg(case, rec):
         g["n"] = len(idx)
         g["ids"] = tuple(item_digest(items[i]) for i in idx)
         want.append(g)
-    a = lod_via(items, case.get("via"))
+    if case.get("edit_between"):
+        # the grouped list was aggregated, then its first item was moved (in place) into the last item's group:
+        # the second aggregate describes what the list holds NOW
+        items = [dict(x) for x in items]
+        first_keys = {k: items[-1][k] for k in by}
+        a = lod_via(items, case.get("via"))
+        try:
+            g = a.group_by(*by)
+            g.aggregate(n=len, ids=group_digest)
+            for k, v in first_keys.items():
+                g[0][k] = v
+        except Exception as e:
+            rec.violation("aggregate", "raised", case, f"{type(e).__name__}: {e}; items={items} by={by}")
+            return
+        items[0].update(first_keys)
+        groups = R.ref_groups(items, by)
+        want = []
+        for kv, idx in groups:
+            w = dict(zip(by, kv))
+            w["n"] = len(idx)
+            w["ids"] = tuple(item_digest(items[i]) for i in idx)
+            want.append(w)
+    a = lod_via(items, case.get("via")) if not case.get("edit_between") else a
     try:
+        if case.get("edit_between"):
+            out = g.aggregate(n=len, ids=group_digest)
         if case.get("regroup"):
             # the same list object was grouped (by other keys) and aggregated before
             a.group_by(*case["regroup"]).aggregate(n=len)
-        g = a.group_by(*by)
-        if case.get("twice"):
-            g.aggregate(n=len)   # the grouped list has been aggregated before: it is still grouped
-        out = g.aggregate(n=len, ids=group_digest)
+        if not case.get("edit_between"):
+            g = a.group_by(*by)
+            if case.get("twice"):
+                g.aggregate(n=len)   # the grouped list has been aggregated before: it is still grouped
+            out = g.aggregate(n=len, ids=group_digest)
     except Exception as e:
         rec.violation("aggregate", "raised", case, f"{type(e).__name__}: {e}; items={items} by={by}")
         return
@@ -358,6 +395,9 @@ def run_shard(shard, rec):
             left = [left_item(nk, combos[c], i) for i, c in enumerate(prefix + rest)]
             for right in rights:
                 case = {"part": "join", "left": left, "right": right, "by": by, "joins": joins}
+                if shard["cfg"] in KEY_RENAME:
+                    case["left"], _ = renamed_keys(shard["cfg"], left, by)
+                    case["right"], case["by"] = renamed_keys(shard["cfg"], right, by)
                 check_case(case, rec)
                 if 1 <= nl <= 2 and shard["cfg"] in ("1-same", "1-ren", "2-same"):
                     check_case(dict(case, alias_left=True), rec)
@@ -384,6 +424,8 @@ def run_shard(shard, rec):
                 if n <= 3:
                     for via in VIAS:
                         check_case(dict(case, via=via), rec)
+                if 2 <= n <= 3:
+                    check_case(dict(case, edit_between=True), rec)
                 if 2 <= n <= 3:
                     check_case(dict(case, regroup=[k for k in ("k2", "k") if k not in by] or list(reversed(by))), rec)
                 count += 1
